@@ -301,6 +301,204 @@ def gen_ricc_int(rng, ns, nc):
         return A, B, Q, R, N
     return None
 
+
+# ------------------------------------------------------------------ hardening audit helpers (classes 1-6 of the audit)
+ARRAY_DRESS = ("list", "tuple", "int64", "int32", "float32", "float64", "noncontig", "fortran", "rowslice")
+SCALAR_DRESS = ("int", "float", "np.int64", "np.int32", "np.intp", "np.uint8", "np.float64", "np.float32")
+
+
+def dress_array(M, form):
+    """integer-valued matrix in one of the audit's array 'dresses'"""
+    ints = [[int(x) for x in row] for row in M]
+    r_, c_ = len(ints), len(ints[0])
+    if form == "list":
+        return ints
+    if form == "tuple":
+        return tuple(tuple(row) for row in ints)
+    if form in ("int64", "int32", "float32", "float64"):
+        return np.array(ints, dtype=form)
+    if form == "noncontig":
+        big = np.full((2 * r_, 2 * c_), 7.0); big[::2, ::2] = ints
+        return big[::2, ::2]
+    if form == "fortran":
+        return np.asfortranarray(np.array(ints, dtype=float))
+    if form == "rowslice":
+        big = np.full((r_ + 2, c_), -3.0); big[1:1 + r_, :] = ints
+        return big[1:1 + r_, :]
+    raise KeyError(form)
+
+
+def dress_scalar(v, form):
+    return {"int": int, "float": float, "np.int64": np.int64, "np.int32": np.int32, "np.intp": np.intp, "np.uint8": np.uint8,
+            "np.float64": np.float64, "np.float32": np.float32}[form](v)
+
+
+def _snap(x):
+    return x.copy() if isinstance(x, np.ndarray) else np.array(x, dtype=object if isinstance(x, str) else None).copy() if isinstance(x, (list, tuple)) else x
+
+
+def _same(a, b):
+    try:
+        return bool(np.array_equal(np.asarray(a), np.asarray(b)))
+    except Exception:
+        return a is b
+
+
+def _arrays(out):
+    if isinstance(out, np.ndarray):
+        return [out]
+    if isinstance(out, (tuple, list)):
+        return [o for x in out for o in _arrays(x)]
+    return []
+
+
+def checked_call(ctx, kind, fn, args, inp):
+    """call fn(); an exception, a mutated argument or a result sharing memory with an argument is an oracle failure"""
+    snaps = {k_: _snap(v) for k_, v in args.items()}
+    try:
+        out = fn()
+    except Exception as e:     # noqa
+        ctx.fail(kind + "_raises", "raises on a valid input", inp, repr(e), None)
+        return None
+    for k_, v in args.items():
+        if not _same(v, snaps[k_]):
+            ctx.fail(kind + "_mutates_argument", "argument %s is modified by the call" % k_, dict(inp, argument=k_), jsonable(v), jsonable(snaps[k_]))
+    for o in _arrays(out):
+        for k_, v in args.items():
+            if isinstance(v, np.ndarray) and np.shares_memory(o, v):
+                ctx.fail(kind + "_aliases_argument", "result shares memory with argument %s" % k_, dict(inp, argument=k_), None, None)
+    return out
+
+
+def harden_c06(ctx, me, thorough):
+    rng = ctx.rng
+    reldev = lambda X, Y: (float(np.max(np.abs(np.asarray(X, float) - Y)) / (1 + np.max(np.abs(Y)))) if np.shape(X) == np.shape(Y) else float("inf"))   # noqa
+    # ================= Lyapunov
+    for t in range(30 if thorough else 10):
+        n = rng.randint(1, 3)
+        A, B = gen_lyap(rng, "nilpotent_int", n)
+        degenerate = None
+        if t % 5 == 0:
+            degenerate = rng.choice(["A=0", "B=0", "n=1"])
+            if degenerate == "A=0":
+                A = [[Fraction(0)] * n for _ in range(n)]
+            elif degenerate == "B=0":
+                B = [[Fraction(0)] * n for _ in range(n)]
+            else:
+                n = 1; A = [[Fraction(0)]]; B = [[Fraction(rng.randint(-4, 4))]]
+            ctx.count("degenerate:lyapunov_%s" % degenerate)
+        ref = me.solve_discrete_lyapunov(npf(A), npf(B))
+        exact = npf(B) if degenerate == "A=0" else None
+        for v in range(4):
+            fa, fb = rng.choice(ARRAY_DRESS), rng.choice(ARRAY_DRESS)
+            fm = rng.choice(SCALAR_DRESS + ("omitted",))
+            meth = rng.choice(["omitted", "doubling", "bartels-stewart"])
+            Aa, Ba = dress_array(A, fa), dress_array(B, fb)
+            kw = {}
+            if fm != "omitted" and meth != "bartels-stewart":
+                kw["max_it"] = dress_scalar(50, fm)
+            if meth != "omitted":
+                kw["method"] = meth
+            inp = {"fn": "solve_discrete_lyapunov", "kind": "hardening", "A": A, "B": B, "dress_A": fa, "dress_B": fb, "max_it_dress": fm, "method": meth}
+            ctx.count("dress:%s" % fa); ctx.count("dress:%s" % fb); ctx.count("dress:max_it=%s" % fm); ctx.count("optional:method=%s" % meth)
+            ctx.case(("h_lyap", str(A), str(B), fa, fb, fm, meth), nontrivial=True)
+            X = checked_call(ctx, "lyap", lambda: me.solve_discrete_lyapunov(Aa, Ba, **kw), {"A": Aa, "B": Ba}, inp)
+            if X is None:
+                continue
+            d_ = reldev(X, ref)
+            if d_ > 1e-9 or (exact is not None and reldev(X, exact) > 1e-12):
+                ctx.fail("lyap_dress", "result differs from the canonical float64 call by %.3g" % d_, inp, np.asarray(X).tolist(), ref.tolist())
+        # successive results do not alias each other
+        Aa, Ba = npf(A), npf(B)
+        X1 = me.solve_discrete_lyapunov(Aa, Ba); X2 = me.solve_discrete_lyapunov(Aa, Ba)
+        keep = X2.copy(); X1 += 1.0
+        ctx.count("alias:successive_results")
+        if np.shares_memory(X1, X2) or not np.array_equal(X2, keep):
+            ctx.fail("lyap_aliases_results", "two successive results share memory", {"fn": "solve_discrete_lyapunov", "A": A, "B": B}, None, None)
+    for bad in ("Doubling", "bartels", ""):
+        ctx.count("expected_error:lyapunov_method")
+        try:
+            me.solve_discrete_lyapunov(np.zeros((1, 1)), np.ones((1, 1)), method=bad)
+            ctx.fail("lyap_accepts_bad_method", "unknown method name accepted", {"fn": "solve_discrete_lyapunov", "method": bad}, "no error", "ValueError")
+        except ValueError:
+            pass
+        except Exception as e:     # noqa
+            ctx.fail("lyap_accepts_bad_method", "unknown method name: wrong exception", {"fn": "solve_discrete_lyapunov", "method": bad}, repr(e), "ValueError")
+    # ================= Riccati
+    tol_d = float(inspect.signature(me.solve_discrete_riccati).parameters["tolerance"].default)
+    mi_d = int(inspect.signature(me.solve_discrete_riccati).parameters["max_iter"].default)
+    for t in range(24 if thorough else 8):
+        ns, nc = rng.randint(1, 3), rng.randint(1, 2)
+        g = gen_ricc_int(rng, ns, nc)
+        if g is None:
+            continue
+        A, B, Q, R, N = g
+        degenerate = None
+        if t % 4 == 0:
+            degenerate = rng.choice(["N=0", "Q=0,N=0,A nilpotent", "B=0,N=0,A nilpotent", "ns=nc=1"])
+            ctx.count("degenerate:riccati_%s" % degenerate)
+            if degenerate == "ns=nc=1":
+                g1 = gen_ricc_int(rng, 1, 1)
+                if g1 is None:
+                    continue
+                ns, nc = 1, 1; A, B, Q, R, N = g1
+            else:
+                N = [[Fraction(0)] * ns for _ in range(nc)]
+                if degenerate != "N=0":
+                    A = [[A[a][b] if b > a else Fraction(0) for b in range(ns)] for a in range(ns)]
+                if degenerate.startswith("Q=0"):
+                    Q = [[Fraction(0)] * ns for _ in range(ns)]
+                if degenerate.startswith("B=0"):
+                    B = [[Fraction(0)] * nc for _ in range(ns)]
+        zeroN = all(x == 0 for r in N for x in r)
+        mats = {"A": A, "B": B, "Q": Q, "R": R, "N": N}
+        for method in ("doubling", "qz"):
+            try:
+                ref = np.atleast_2d(me.solve_discrete_riccati(*[npf(mats[k_]) for k_ in "ABQRN"], method=method))
+            except Exception as e:     # noqa
+                ctx.fail("ricc_raises", "canonical float64 call raises on a valid (degenerate: %s) input" % degenerate,
+                         dict({"fn": "solve_discrete_riccati", "kind": "hardening", "method": method}, **mats), repr(e), None)
+                continue
+            if degenerate and degenerate.startswith("Q=0") and np.max(np.abs(ref)) > 1e-12:
+                ctx.fail("ricc_degenerate", "Q = 0, N = 0, nilpotent A: the stabilising solution is X = 0", dict({"fn": "solve_discrete_riccati", "method": method}, **mats), ref.tolist(), 0)
+            for v in range(3):
+                forms = {k_: rng.choice(ARRAY_DRESS) for k_ in "ABQRN"}
+                args = {k_: dress_array(mats[k_], forms[k_]) for k_ in "ABQRN"}
+                nmode = rng.choice(["omitted", "None", "zeros"]) if zeroN else "given"
+                kw = {"method": method} if (method == "qz" or rng.random() < 0.5) else {}
+                ft, fmx = rng.choice(("omitted", "float", "np.float64")), rng.choice(SCALAR_DRESS + ("omitted",))
+                if ft != "omitted":
+                    kw["tolerance"] = dress_scalar(tol_d, ft)
+                if fmx != "omitted":
+                    kw["max_iter"] = dress_scalar(mi_d if fmx != "np.uint8" else 200, fmx)
+                pos = [args["A"], args["B"], args["Q"], args["R"]]
+                if nmode == "None":
+                    pos.append(None)
+                elif nmode in ("given", "zeros"):
+                    pos.append(args["N"])
+                inp = dict({"fn": "solve_discrete_riccati", "kind": "hardening", "dress": forms, "N_mode": nmode, "kwargs": {k_: repr(v_) for k_, v_ in kw.items()}, "method": method}, **mats)
+                for f_ in forms.values():
+                    ctx.count("dress:%s" % f_)
+                ctx.count("optional:N=%s" % nmode); ctx.count("optional:tolerance=%s" % ft); ctx.count("dress:max_iter=%s" % fmx)
+                ctx.case(("h_ricc", str(mats), str(forms), nmode, str(kw)), nontrivial=True)
+                X = checked_call(ctx, "ricc", lambda: me.solve_discrete_riccati(*pos, **kw), args, inp)
+                if X is None:
+                    continue
+                d_ = reldev(np.atleast_2d(X), ref)
+                if d_ > (1e-5 if "float32" in forms.values() else 1e-9):
+                    ctx.fail("ricc_dress", "result differs from the canonical float64 call by %.3g" % d_, inp, np.asarray(X).tolist(), ref.tolist())
+            X1 = me.solve_discrete_riccati(*[npf(mats[k_]) for k_ in "ABQRN"], method=method)
+            X2 = me.solve_discrete_riccati(*[npf(mats[k_]) for k_ in "ABQRN"], method=method)
+            ctx.count("alias:successive_results")
+            if np.shares_memory(X1, X2):
+                ctx.fail("ricc_aliases_results", "two successive results share memory", dict({"fn": "solve_discrete_riccati", "method": method}, **mats), None, None)
+    ctx.count("expected_error:riccati_method")
+    try:
+        me.solve_discrete_riccati(np.eye(1), np.eye(1), np.eye(1), np.eye(1), method="QZ")
+        ctx.fail("ricc_accepts_bad_method", "unknown method name accepted", {"fn": "solve_discrete_riccati", "method": "QZ"}, "no error", "ValueError")
+    except ValueError:
+        pass
+
 # ------------------------------------------------------------------ main
 def run(ctx):
     import quantecon as qe
@@ -640,6 +838,7 @@ def run(ctx):
     bad = ctx.coq_check("riccati_doubling_Q", IMPORTS, tyq, okq, qcases, chunk=2, preamble=PRE2)
     for i in bad:
         ctx.mismatch("C06.Model.solve_discrete_riccati (NumQ) vs implementation", qmeta[i])
+    harden_c06(ctx, me, thorough)
     ctx.notes.append("largest oracle ratios seen (tolerances %g / %g / %g): %s" % (TOL_RES, TOL_SYM, TOL_AGREE, json.dumps(worst)))
     ctx.trusted += ["mpmath (50 digits) oracle arithmetic", "Riccati gamma observed through a sys.setprofile return hook (frame locals), cross-checked by recomputation"]
 
